@@ -763,7 +763,11 @@ func c05Random[V any](c *run.Ctx, k omKind[V], phase string) {
 	c.Parallel(phase, n, func(i int, r *rand.Rand) {
 		var alphabet []string
 		fullEvery := 1
-		switch i % 3 {
+		switch i % 4 {
+		case 3:
+			// keys that look like other YAML/JSON types or need quoting
+			alphabet = []string{"", "1", "007", "true", "~", "a b", "0x10", "é", "null", "1.50", "- x", "k: v"}
+			fullEvery = 2
 		case 0:
 			alphabet = []string{"a", "b", "c", "d"}
 		case 1:
